@@ -45,3 +45,20 @@ Qed.
 Lemma shallow_copy_aliases h o k x : (o < length h)%nat ->
   let '(h', b) := shallow_copy h o in view (write h' o k x) b = upd (view h o) k x.
 Proof. intros H. unfold shallow_copy. apply view_write_same. exact H. Qed.
+
+(* A method whose returned object is built with a sized constructor (T x(n), T x(m,n)) or a DEEP_COPY owns a buffer that
+   did not exist before the call: it differs from the buffer of every operand, writing into it changes no operand, and
+   writing into an operand does not change it. *)
+Definition new_object (h : heap) (v : list Z) : heap * nat := (h ++ [v], length h).
+Lemma fresh_result_independent h v o k x : (o < length h)%nat ->
+  let '(h', r) := new_object h v in
+  r <> o /\ view h' r = v /\ view h' o = view h o /\
+  view (write h' r k x) o = view h o /\ view (write h' o k x) r = v.
+Proof.
+  intros H. unfold new_object.
+  assert (V : view (h ++ [v]) (length h) = v) by (unfold view; rewrite app_nth2, Nat.sub_diag by lia; reflexivity).
+  assert (V' : view (h ++ [v]) o = view h o) by (unfold view; rewrite app_nth1 by lia; reflexivity).
+  repeat split; auto; try lia.
+  - rewrite view_write_other by lia. exact V'.
+  - rewrite view_write_other by lia. exact V.
+Qed.
